@@ -34,6 +34,9 @@ package watermark
 //@ func (*watermark.WaterMark).DoneUntil -> r
 //@ trusted atomic load; monotone and never beyond an open index (C13 safety clause, proved on process)
 //@ assigns WmLow
+//@ requires w != nil
+//@ ensures r == w.doneUntil.v
+//@ body_ensures r == w.doneUntil.v
 //@ ensures r >= old(WmLow)[ref(w)] && r <= WmMax[ref(w)]
 //@ ensures WmLow == store(old(WmLow), ref(w), r)
 //@ ensures forall(Int(t), WmOpen[ref(w)][t] > 0 ==> r <= t, trig(WmOpen[ref(w)][t]))
@@ -45,3 +48,112 @@ package watermark
 //@ ensures ctx == ctx_background ==> err == nil
 //@ ensures WmLow[ref(w)] >= old(WmLow)[ref(w)]
 //@ ensures forall(Int(x), x != ref(w) ==> WmLow[x] == old(WmLow)[x], trig(WmLow[x]))
+//
+// ---- C13: the consumer loop -------------------------------------------------------------------
+// Ghost history of the marks `process` has consumed (processing order = channel FIFO order):
+//   PB[t]     begun-minus-finished count of index t over all consumed marks
+//   SeenTs[t] some Begin/Done mark for t has been consumed
+//   Stood[t]  value of doneUntil when t last went from "not open" to "open" in the consumer's books
+//   WReg[c]   waiter channel c has been consumed; WTs[c] its index; WIx[c] its slot in waiters[WTs[c]]
+// The received mark is unconstrained (havoc), so the invariants hold for every arrival order,
+// repeated indices, Done without Begin and any number of marks in flight.
+//@ ghost PB (Array Int Int)
+//@ ghost SeenTs (Array Int Bool)
+//@ ghost Stood (Array Int Int)
+//@ ghost WReg (Array Int Bool)
+//@ ghost WTs (Array Int Int)
+//@ ghost WIx (Array Int Int)
+//
+//@ func (*watermark.lowHeap).Len -> n
+//@ props C13
+//@ requires h != nil
+//@ ensures n == len(*h)
+//
+//@ func (*watermark.lowHeap).Less -> r
+//@ props C13
+//@ requires h != nil && 0 <= i && i < len(*h) && 0 <= j && j < len(*h)
+//@ ensures r == ((*h)[i] < (*h)[j])
+//
+//@ func (*watermark.lowHeap).Swap
+//@ props C13
+//@ requires h != nil && 0 <= i && i < len(*h) && 0 <= j && j < len(*h)
+//@ assigns (*h)[*]
+//@ ensures (*h)[i] == old((*h)[j]) && (*h)[j] == old((*h)[i]) && all(k, 0, len(*h), (k != i && k != j) ==> (*h)[k] == old((*h)[k]))
+//
+//@ func (*watermark.lowHeap).Push
+//@ props C13
+//@ requires h != nil && tag(x) == tagof(uint64)
+//@ assigns *h, (*h)[*]
+//@ ensures len(*h) == old(len(*h)) + 1 && (*h)[len(*h)-1] == unbox(uint64, x) && all(k, 0, old(len(*h)), (*h)[k] == old((*h)[k]))
+//
+//@ func (*watermark.lowHeap).Pop -> r
+//@ props C13
+//@ requires h != nil && len(*h) > 0
+//@ assigns *h
+//@ ensures len(*h) == old(len(*h)) - 1 && tag(r) == tagof(uint64) && unbox(uint64, r) == old((*h)[len(*h)-1]) && all(k, 0, len(*h), (*h)[k] == old((*h)[k]))
+//
+//@ define wmBooks(hp, pending) = lowRep(hp) && pending != nil && forall(Int(t), LH[ref(hp)][t] ==> has(pending, t), trig(LH[ref(hp)][t])) && forall(Int(t), has(pending, t) ==> LH[ref(hp)][t], trig(dom(pending, t)))
+//@ define wmLower(pending) = forall(Int(t), (has(pending, t) ==> pending[t] >= PB[t]) && (!has(pending, t) ==> PB[t] <= 0), trig(PB[t]))
+//@ define wmExact(pending) = forall(Int(t), (has(pending, t) ==> pending[t] == PB[t]) && (!has(pending, t) ==> PB[t] == 0), trig(PB[t]))
+//@ define wmSafe(pending, du) = forall(Int(t), (has(pending, t) && pending[t] > 0) ==> (du < t || du == Stood[t]), trig(pending[t]))
+//
+//@ define wmSlots(waiters) = waiters != nil && forall(Int(k), Int(j), (has(waiters, k) && 0 <= j && j < len(waiters[k])) ==> (waiters[k][j] != nil && WReg[waiters[k][j]] && WTs[waiters[k][j]] == k && WIx[waiters[k][j]] == j), trig(waiters[k][j])) && forall(Int(k), Int(k2), (has(waiters, k) && has(waiters, k2) && k != k2) ==> arrid(waiters[k]) != arrid(waiters[k2]), trig(arrid(waiters[k]), arrid(waiters[k2]))) && forall(Int(k), has(waiters, k) ==> (arrid(waiters[k]) < alloc && offof(waiters[k]) == 0), trig(arrid(waiters[k])))
+//@ define wmOpenSlots(waiters) = forall(Int(k), Int(j), (has(waiters, k) && 0 <= j && j < len(waiters[k])) ==> !ChClosed[waiters[k][j]], trig(waiters[k][j]))
+//@ define wmLive(waiters) = forall(Int(c), (WReg[c] && !ChClosed[c]) ==> (has(waiters, WTs[c]) && 0 <= WIx[c] && WIx[c] < len(waiters[WTs[c]]) && waiters[WTs[c]][WIx[c]] == c), trig(WReg[c]))
+//@ define wmClosedOK(du) = forall(Int(c), (WReg[c] && ChClosed[c]) ==> du >= WTs[c], trig(WReg[c]))
+//
+//@ func (*watermark.WaterMark).process
+//@ props C13
+//@ requires w != nil && w.markC != nil && !ChClosed[w.markC]
+//@ requires forall(Int(t), PB[t] == 0 && !SeenTs[t], trig(PB[t]), trig(SeenTs[t])) && forall(Int(c), !WReg[c], trig(WReg[c]))
+//@ assigns everything
+// every waiter request carries its own new channel (WaitForMark makes one per call; no other sender
+// sets the waiter field): an assumption about the clients of markC
+//@ assume_after m: m.waiter != nil ==> (!WReg[m.waiter] && !ChClosed[m.waiter])
+//@ loop 0:
+//@   invariant w != nil && w.markC != nil && !ChClosed[w.markC] && !WReg[w.markC]
+//@   invariant wmBooks(&timeStamps, pending)
+//@   invariant wmLower(pending)
+//@   invariant wmExact(pending)
+//@   invariant wmSafe(pending, w.doneUntil.v)
+//@   invariant LHN[ref(&timeStamps)] > 0 ==> pending[timeStamps[0]] > 0
+//@   invariant forall(Int(t), (SeenTs[t] && !has(pending, t)) ==> t <= w.doneUntil.v, trig(SeenTs[t]))
+//@   invariant forall(Int(t), (SeenTs[t] && forall(Int(u), u <= t ==> PB[u] <= 0, trig(PB[u]))) ==> w.doneUntil.v >= t, trig(SeenTs[t]))
+//@   invariant wmSlots(waiters) && wmOpenSlots(waiters)
+//@   invariant forall(Int(k), has(waiters, k) ==> k > w.doneUntil.v, trig(dom(waiters, k)))
+//@   invariant wmLive(waiters)
+//@   invariant wmClosedOK(w.doneUntil.v)
+//@ loop 1:
+//@   invariant w != nil
+//@   invariant wmBooks(&timeStamps, pending)
+//@   invariant wmLower(pending)
+//@   invariant wmExact(pending)
+//@   invariant wmSafe(pending, w.doneUntil.v)
+//@   invariant currDoneUntil == w.doneUntil.v
+//@   invariant doneUntil == currDoneUntil || forall(Int(t), LH[ref(&timeStamps)][t] ==> t > doneUntil, trig(LH[ref(&timeStamps)][t]))
+//@   invariant forall(Int(t), (SeenTs[t] && !has(pending, t)) ==> (t <= doneUntil || t <= currDoneUntil), trig(SeenTs[t]))
+//@   decreases LHN[ref(&timeStamps)]
+//@ loop 2:
+//@   invariant w != nil && w.markC != nil && !ChClosed[w.markC] && !WReg[w.markC] && doneUntil == w.doneUntil.v
+//@   invariant wmSlots(waiters) && wmOpenSlots(waiters)
+//@   invariant forall(Int(k), (has(waiters, k) && seen[k]) ==> k > doneUntil, trig(dom(waiters, k)))
+//@   invariant wmLive(waiters)
+//@   invariant wmClosedOK(doneUntil)
+//@ loop 3:
+//@   invariant w != nil && w.markC != nil && !ChClosed[w.markC] && !WReg[w.markC] && doneUntil == w.doneUntil.v
+//@   invariant has(waiters, t) && cs == waiters[t] && t <= doneUntil && seen[t]
+//@   invariant wmSlots(waiters)
+//@   invariant forall(Int(k), Int(j), (has(waiters, k) && 0 <= j && j < len(waiters[k]) && (k != t || j > rangeindex)) ==> !ChClosed[waiters[k][j]], trig(waiters[k][j]))
+//@   invariant all(j, 0, rangeindex + 1, ChClosed[cs[j]])
+//@   invariant forall(Int(k), (has(waiters, k) && seen[k] && k != t) ==> k > doneUntil, trig(dom(waiters, k)))
+//@   invariant wmLive(waiters)
+//@   invariant wmClosedOK(doneUntil)
+//@ before_call Store#0: assert doneUntil > w.doneUntil.v
+//@ after_call mapupdate#1: ghost Stood = ite(cnt == 1 && (!ok || prev <= 0), store(Stood, ts, w.doneUntil.v), Stood)
+//@ after_call mapupdate#1: ghost PB = store(PB, ts, PB[ts] + cnt)
+//@ after_call mapupdate#1: ghost SeenTs = store(SeenTs, ts, true)
+//@ before_call close#1: ghost WReg = store(WReg, m.waiter, true)
+//@ before_call close#1: ghost WTs = store(WTs, m.waiter, m.ts)
+//@ after_call mapupdate#0: ghost WReg = store(WReg, m.waiter, true)
+//@ after_call mapupdate#0: ghost WTs = store(WTs, m.waiter, m.ts)
+//@ after_call mapupdate#0: ghost WIx = store(WIx, m.waiter, len(waiters[m.ts]) - 1)
